@@ -65,6 +65,27 @@ fn elem_bytes(rng: &mut StdRng, pool: &Pool, nlimbs: usize) -> Vec<u8> {
     }
     v
 }
+/// algebraically special elements: roots of unity of the base field embedded in F_q^12, and elements of relative norm one
+/// over a subfield, x = y^(q^k - 1) (k = 1, 2, 3, 4, 6), which are NOT in general unitary or cyclotomic
+fn special(rng: &mut StdRng, pool: &Pool) -> Vec<u8> {
+    if rng.gen_range(0..3) == 0 {
+        let w = crate::grp::cube_root_of_unity();
+        let c = match rng.gen_range(0..4) { 0 => w, 1 => w * w, 2 => -sm9_core::Fq::one(), _ => -w };
+        let mut v = vec![0u8; 384];
+        v[352..384].copy_from_slice(&c.to_slice());
+        return v;
+    }
+    let y = fq12_from(&elem_bytes(rng, pool, 12));
+    match y.inverse() {
+        None => vec![0u8; 384],
+        Some(yi) => {
+            let k = [1usize, 2, 3, 4, 6][rng.gen_range(0..5)];
+            let fy = if k == 4 { y.frobenius_map(2).frobenius_map(2) } else { y.frobenius_map(k) };
+            (fy * yi).to_slice().to_vec()
+        }
+    }
+}
+
 fn unitary(rng: &mut StdRng, pool: &Pool) -> Vec<u8> {
     let (a, bb) = (pick_scalar(rng, pool), pick_scalar(rng, pool));
     sm9_core::pairing(G1::one() * a, G2::one() * bb).to_slice().to_vec()
@@ -84,8 +105,10 @@ pub fn run(a: &Args, out: &mut Out) {
     while !out.full() {
         k += 1;
         // operand classes are drawn independently of the operation (k): unitary (pairing values) 1 in 5, else random / sparse / subfield
-        let xa = if rng.gen_range(0..5) == 0 { unitary(&mut rng, &poolr) } else { elem_bytes(&mut rng, &poolq, 12) };
+        let xa = match rng.gen_range(0..10) { 0 | 1 => unitary(&mut rng, &poolr), 2 | 3 => special(&mut rng, &poolq), _ => elem_bytes(&mut rng, &poolq, 12) };
         let xb = if rng.gen_range(0..7) == 0 { unitary(&mut rng, &poolr) } else { elem_bytes(&mut rng, &poolq, 12) };
+        // inversion and the final exponentiations see the algebraically special elements half of the time
+        let xa = if (k % 10 == 2 || k % 10 == 8) && rng.gen::<bool>() { special(&mut rng, &poolq) } else { xa };
         let (fa, fb) = (fq12_from(&xa), fq12_from(&xb));
         match k % 10 {
             0 | 1 => {
